@@ -313,6 +313,7 @@ def assemble(unit_path, variant=None):
                 if "seg" in kv:
                     ann["seg_name"] = kv["seg"]; ann["seg_from"] = kv.get("from_stmt") or kv.get("from_after")
                     if "from_after" in kv: ann["seg_from_after"] = kv["from_after"]
+                    if "from_block_start" in kv: ann["seg_from_block_start"] = True; ann["seg_from"] = kv.get("to_stmt")
                     if "to_stmt" in kv: ann["seg_to"] = kv["to_stmt"]
                     if "segret" in kv: ann["seg_ret"] = kv["segret"]
                     if "brk" in kv: ann["seg_brk"] = kv["brk"]
